@@ -19,6 +19,13 @@ P_TEMPLATE = {"name": "P", "decl": "clock x; int v;", "locations": [{"id": "id0"
 BOUNDARY_EXPRS = ["-(-2147483648)", "- -2147483648", "1 - -2147483648", "-2147483648 - 1", "-(-i)", "i - -1", "-(i++)", "-(--i)", "i+++j", "i - --j", "!(!b1)", "-(-1.5)", "1.5 - -2.5",
                   '"abc"', '"a b"', '"a\\\\b"', "fn(i, 2147483647)", "(b1 && (forall (q : int[0,2]) arr[q] > 0)) || i > 0", "(i > 0 ? (exists (q : int[0,1]) arr[q] == i) : b1) && b1",
                   "(sum (q : int[0,2]) arr[q]) + 1", "b1 || (forall (q : int[0,2]) arr[q] > 0) && b1", "i * (j + k) * -(1)", "s.f + sa[1].g[0]", "arr[arr[0]]", "(i, j)", "i = (j, k)"]
+# every builtin function and the operators the typed universe of Lang.tla leaves out (production zoo, lib/zoo.py)
+BOUNDARY_EXPRS += ["sqrt(d) + pow(d, 2.0) + fabs(-d) + fmod(d, 2.0) + fma(d, 2.0, 1.0)", "ln(d) + exp(d) + exp2(d) + expm1(d) + log(d) + log10(d) + log2(d) + log1p(d)", "cbrt(d) + sin(d) + cos(d) + tan(d) + asin(d) + acos(d) + atan(d)",
+                   "sinh(d) + cosh(d) + tanh(d) + asinh(d) + acosh(d) + atanh(d) + erf(d) + erfc(d) + tgamma(d) + lgamma(d)", "trunc(d) + round(d) + floor(d) + ceil(d) + fint(d) + logb(d)",
+                   "atan2(d, 1.0) + hypot(d, 1.0) + fdim(d, 1.0) + fmax(d, 1.0) + fmin(d, 1.0) + nextafter(d, 1.0) + copysign(d, 1.0) + ldexp(d, 2)", "random(3.0) + random_normal(0.0, 1.0) + random_poisson(2.0) + random_tri(0.0, 1.0, 2.0)",
+                   "random_arcsine(0.0, 1.0) + random_beta(1.0, 2.0) + random_gamma(1.0, 2.0) + random_weibull(1.0, 2.0)", "ilogb(d) + fpclassify(d) + abs(i)", "isfinite(d) && isinf(d) || isnan(d) && isnormal(d) || signbit(d) && isunordered(d)",
+                   "i ** 2", "d ** 2.0 ** 3.0", "(d ** 2.0) ** 3.0", "-i ** 2", "(i <? j) >? k", "i <? j >? k", "i % 3 << 2 >> 1", "i & j | k ^ 1", "(i & j) == 0", "i & j == 0", "gx' == 2", "i >= 0 imply j > 0 imply k > 0",
+                   "(i >= 0 imply j > 0) imply k > 0", "b1 xor !b1", "not b1 and b1 or b1", "s == s", "arr == arr", "(b1 ? s : sa[0]).f", "(b1 ? arr : arr)[0]", "fn(fn(1, 2), i++)", "sa[i].g[j] += 1", "i <<= 2", "i >>= j", "i ^= 1", "i |= j & k"]
 BOUNDARY_QUERIES = ["Pr[<=10](P.L1 U 1)", "Pr[<=10](1 U P.L2)", "Pr[<=10](<> 1)", "Pr[<=10](P.L1 U true)", "Pr[<=10]([] true)", 'saveStrategy("a\\\\b.json", S)', 'saveStrategy("dir/x y.json", S)',
                     'loadStrategy{i}->{gx}("a\\\\b.json")', 'loadStrategy{}->{}("plain.json")', "E<> -(-2147483648) == i", "A[] -i <= -(-j)", "E<> (forall (q : int[0,2]) arr[q] >= 0) || P.L1",
                     "A[] P.L1 imply (exists (q : int[0,1]) arr[q] > i) && P.v >= 0", "sup{P.L1 && i > -1}: i, -j", "E[<=10; 3](max: -(-i))", "simulate[<=10; 2]{-i, (i > 0 ? j : k)}"]
